@@ -232,7 +232,7 @@ def judge_mac_shape(case):
     j.check(np.allclose(r.real, r2.real.T, rtol=1e-9, atol=1e-12), "MAC-symmetry", lambda: f"MAC(X,A)={r.tolist()} MAC(A,X)^T={r2.T.tolist()}")
     if X.shape[0] == A.shape[0]:
         # the two sets as column groups of one table (e.g. the modes of one result split in two)
-        parent = np.hstack([X, A])
+        parent = np.ascontiguousarray(np.hstack([X, A]))  # row-major: the two column groups interleave in memory
         rv = sut(gen.MAC, parent[:, :p], parent[:, p:])
         if j.check(not raised(rv), "MAC-raises", lambda: f"column groups of one array: {rv!r}"):
             rv = np.asarray(rv).reshape(r.shape) if np.asarray(rv).size == r.size else np.asarray(rv)
